@@ -1,1 +1,7 @@
 import RV.Props.C18
+import RV.Props.C19
+import RV.Props.C20
+import RV.Props.C03
+import RV.Props.C09
+import RV.Props.C10
+import RV.Props.C16
